@@ -38,6 +38,11 @@ fn main() {
         }
         i += 1;
     }
+    // Parent / child split: the real work runs in a child process so that an abort, a stack overflow or an OOM kill in
+    // the code under test is observed, attributed to the case that was running, and reported as a violation.
+    if std::env::var("BPCHECK_CHILD").is_err() {
+        std::process::exit(parent(&id, &args, replay.as_deref()));
+    }
     let seed: u64 = std::env::var("VERIF_SEED").ok().and_then(|s| s.trim().parse::<i128>().ok()).map(|v| v as u64).unwrap_or(0);
     let root = PathBuf::from(std::env::var("VERIF_ROOT").unwrap_or_else(|_| "/verif".into()));
     // quiet panic hook: panics are caught and reported by the oracles
@@ -72,4 +77,79 @@ fn main() {
         None => run_property(&ctx, &def, only_sub.as_deref()),
     };
     std::process::exit(code);
+}
+
+fn run_child(args: &[String], crumbs: Option<&std::path::Path>) -> std::process::ExitStatus {
+    let exe = std::env::current_exe().expect("current_exe");
+    // address-space cap so that a runaway allocation fails fast instead of thrashing the machine
+    let limit_kb: u64 = std::env::var("VERIF_AS_LIMIT_KB").ok().and_then(|s| s.parse().ok()).unwrap_or(40 * 1024 * 1024);
+    let mut cmd = std::process::Command::new("/bin/sh");
+    let quoted: Vec<String> = std::iter::once(exe.display().to_string())
+        .chain(args.iter().cloned())
+        .map(|a| format!("'{}'", a.replace('\'', "'\\''")))
+        .collect();
+    cmd.arg("-c").arg(format!("ulimit -v {} 2>/dev/null; exec {}", limit_kb, quoted.join(" ")));
+    cmd.env("BPCHECK_CHILD", "1");
+    if let Some(c) = crumbs {
+        cmd.env("BPCHECK_CRUMBS", c);
+    }
+    cmd.status().expect("spawn child")
+}
+
+fn parent(id: &str, args: &[String], replay: Option<&std::path::Path>) -> i32 {
+    use std::os::unix::process::ExitStatusExt;
+    let root = PathBuf::from(std::env::var("VERIF_ROOT").unwrap_or_else(|_| "/verif".into()));
+    let crumbs = root.join("harness/target/crumbs").join(format!("{}-{}", id, std::process::id()));
+    let _ = std::fs::remove_dir_all(&crumbs);
+    let _ = std::fs::create_dir_all(&crumbs);
+    let st = run_child(args, if replay.is_none() { Some(&crumbs) } else { None });
+    let code = match (st.code(), st.signal()) {
+        (Some(c), _) if c == 0 || c == 1 || c == 2 => c,
+        (c, sig) => {
+            // abnormal death
+            eprintln!("[{}] child process died abnormally (exit code {:?}, signal {:?})", id, c, sig);
+            if let Some(f) = replay {
+                println!("VIOLATION property={} replay={}", id, f.display());
+                eprintln!("  reason=process died (abort / kill) while replaying this case");
+                1
+            } else {
+                // which of the cases that were running kills the process? replay each candidate in its own child
+                let mut found = None;
+                let mut cands: Vec<PathBuf> = std::fs::read_dir(&crumbs).map(|d| d.filter_map(|e| e.ok().map(|e| e.path())).collect()).unwrap_or_default();
+                cands.sort();
+                let dir = root.join("replays").join(id);
+                let _ = std::fs::create_dir_all(&dir);
+                for (n, cnd) in cands.iter().enumerate() {
+                    let dst = dir.join(format!("abort-{}-{}.json", std::process::id(), n));
+                    let _ = std::fs::copy(cnd, &dst);
+                    let st2 = run_child(&[id.to_string(), "--replay".into(), dst.display().to_string()], None);
+                    match st2.code() {
+                        Some(1) => {
+                            // the child reported the violation itself (with the replay path)
+                            found = Some(dst);
+                            break;
+                        },
+                        Some(0) | Some(2) => {
+                            let _ = std::fs::remove_file(&dst);
+                        },
+                        _ => {
+                            println!("VIOLATION property={} replay={}", id, dst.display());
+                            eprintln!("  reason=process died (abort / kill / stack overflow) while running this case");
+                            found = Some(dst);
+                            break;
+                        },
+                    }
+                }
+                match found {
+                    Some(_) => 1,
+                    None => {
+                        eprintln!("INCONCLUSIVE: child died abnormally and no single running case reproduces it");
+                        2
+                    },
+                }
+            }
+        },
+    };
+    let _ = std::fs::remove_dir_all(&crumbs);
+    code
 }
